@@ -301,6 +301,85 @@ def runtime_declarations(rep):
         rep.nontrivial.add('runtime-declaration-' + name)
 
 
+def nested_moves(rep):
+    """C09 '_move detaches the source subtree and attaches it - values, processes
+    and their relative wiring intact - under the target', for a source named by a
+    path of two elements (Store.tla moves compartments named by one key): the
+    subtree keeps its relative place below the target, the very node moves, its
+    process keeps running there, its sibling stays, nothing else changes."""
+    from vivarium.core.engine import Engine
+    from vivarium.core.process import Process
+
+    class Tick(Process):
+        defaults = {'time_step': 1}
+
+        def ports_schema(self):
+            return {'count': {'n': {'_default': 0, '_emit': True}}}
+
+        def next_update(self, timestep, states):
+            return {'count': {'n': 1}}
+
+    class Mover(Process):
+        defaults = {'time_step': 1, 'move': None}
+
+        def ports_schema(self):
+            return {'a': {'*': {}}, 'b': {'*': {}}}
+
+        def next_update(self, timestep, states):
+            self.calls = getattr(self, 'calls', 0) + 1
+            if self.calls == 2:
+                return {'a': {'_move': [self.parameters['move']]}}
+            return {}
+    for source, holder in ((('x', 'y'), ('A', 'x')), (('x',), ('A',))):
+        rep.evaluations += 1
+        sig = {'kind': 'nested-move', 'source': list(source)}
+        inner = {'y': {'tick': Tick()}, 'z': {'tick': Tick()}}
+        inner_topo = {k: {'tick': {'count': ('count',)}} for k in inner}
+        try:
+            eng = Engine(
+                processes={'mover': Mover({'move': {'source': source, 'target': 'b'}}),
+                           'A': {'x': inner}},
+                topology={'mover': {'a': ('A',), 'b': ('B',)}, 'A': {'x': inner_topo}},
+                initial_state={'B': {}}, display_info=False, emitter='null')
+            eng.update(1)
+            moved = eng.state.get_path(('A',) + source)
+            other = eng.state.get_path(('A', 'x', 'z'))
+            eng.update(1)
+            eng.update(1)
+            now = eng.state.get_path(('B',) + source)
+        except Exception as e:
+            rep.violation(sig, 'C09 a _move whose source is the path %r raised %r'
+                          % (source, e), {})
+            continue
+        problems = []
+        if now is not moved:
+            problems.append('the node at B/%s is not the node that was at A/%s'
+                            % ('/'.join(source), '/'.join(source)))
+        holder_node = eng.state.get_path(holder)
+        if source[-1] in holder_node.inner:
+            problems.append('the source is still under A')
+        if source == ('x', 'y'):
+            if eng.state.get_path(('A', 'x', 'z')) is not other \
+                    or other.get_path(('count', 'n')).value != 3:
+                problems.append('the sibling A/x/z changed')
+            counts = [now.get_path(('count', 'n')).value]
+        else:
+            counts = [now.get_path((k, 'count', 'n')).value for k in ('y', 'z')]
+        # (the update of the moved process due in the tick of the move may be dropped)
+        if any(c not in (2, 3) for c in counts):
+            problems.append('the moved process(es) counted %r in 3 ticks' % (counts,))
+        want = {('B',) + source + (('tick',) if len(source) == 2 else (k, 'tick'))
+                for k in ('y', 'z')} if len(source) == 1 else {('B', 'x', 'y', 'tick')}
+        have = {p for p in eng.process_paths if p[0] == 'B'}
+        if have != want:
+            problems.append('the engine lists the processes %s under B, expected %s'
+                            % (sorted(have), sorted(want)))
+        if problems:
+            rep.violation(sig, 'C09 a _move whose source is the path %r: %s'
+                          % (source, '; '.join(problems)), {})
+        rep.nontrivial.add('nested-move-%d' % len(source))
+
+
 def check(prop, tier, seed):
     rep = Report(prop, tier, seed)
     rep.rule = ('TLC: exhaustive model checking of Store.tla; implementation: every '
@@ -320,6 +399,7 @@ def check(prop, tier, seed):
         validate(rep, prop, histories(tier, seed), scratch)
         if prop == 'C09':
             rep.guard(runtime_declarations, rep, what='runtime declarations')
+            rep.guard(nested_moves, rep, what='moves of nested sources')
         if prop == 'C10':
             from vv import props_engine
             props_engine.struct_check(rep, tier, seed, scratch)
